@@ -84,6 +84,8 @@ type pathState struct {
 	fmtOpaque  int
 	ptrPrinted int
 	depthBound int // vDepthBound: exceeding it is a violation on this path
+	instrBound  int64 // vInstrBound: absolute instruction count at which the path becomes a violation
+	instrBudget int64
 	transcriptSym bool
 	stubOff    map[string]bool
 }
